@@ -10,7 +10,12 @@ import os
 import sys
 import time
 
-import phyclone.run as pr
+# CPU affinity is applied BEFORE phyclone (and numba) are imported, as `taskset` would: libraries size their thread
+# pools from the usable cores at import time
+if os.environ.get("VP_AFF"):
+    os.sched_setaffinity(0, {int(x) for x in os.environ["VP_AFF"].split(",")})
+
+import phyclone.run as pr  # noqa: E402
 
 _delays = json.loads(os.environ.get("VP_DELAYS", "{}") or "{}")
 if _delays:
